@@ -285,8 +285,12 @@ def tasks(tier):
                   ('W', 'W', 'W')]
     for p in progs:
         # two threads: every schedule; more: preemption-bounded
-        b = None if len(p) == 2 and sum(map(len, p)) <= 3 else \
-            (2 if tier == 'quick' else 3)
+        if len(p) == 2 and sum(map(len, p)) <= 3:
+            b = None
+        elif tier == 'quick' or len(p) >= 4 or sum(map(len, p)) >= 4:
+            b = 2
+        else:
+            b = 3
         T.append((p, (), b))
         T.append((p, ((0, 0),), b))
     return T
